@@ -13,7 +13,9 @@ Inductive chain_sel :=
   | KRegister (m : bytes)            (* registered through the real httpRegister *)
   | KChain (ws : list wrapper).      (* one of the other chains used in the code *)
 
-Record obs := { o_ran : bool; o_status : Z; o_loc : Z; o_sess : stable }.
+(* [o_locked]: globalContext.controlLock was held while the probe handler ran
+   (round 4; false when it did not run). *)
+Record obs := { o_ran : bool; o_locked : bool; o_status : Z; o_loc : Z; o_sess : stable }.
 
 (** The accounts the harness configures (harness/home/zz_verif_C11_test.go
     [c11Accounts]: the same constants; the harness emits one [CAccounts] case
@@ -92,7 +94,16 @@ Inductive case :=
      postInstall(optionalAuth(probe)) (probe ran).  [t]: bcrypt as observed by
      calling it directly on every account named [login]. *)
   | CFind (us : list (bytes * bytes)) (t : list (N * bytes * bc_res)) (login pw : bytes)
-          (found : bool) (idx : N) (login_status : Z) (cookie_issued : bool) (basic_ran : bool).
+          (found : bool) (idx : N) (login_status : Z) (cookie_issued : bool) (basic_ran : bool)
+  (* round 4: start-up with a populated sessions.db.  [recs]: the records put
+     into the bucket (raw token, user, expiry) before the process "starts";
+     the real InitAuth -> loadSessions at [now0]; [loaded]: Auth.sessions as
+     found after it; then requests through real chains, one after the other
+     on the same Auth object (each with its own clock reading in [e_now]),
+     with the table observed after each.  The model side: [Session.restart]
+     on the stored records (the model of C12, used as it is), then the
+     wrapper model on each request, threading the session state. *)
+  | CReload (recs : stable) (now0 : N) (loaded : stable) (reqs : list (env * chain_sel * request * obs)).
 
 (** The map in memory only: the bucket is the business of C12 (Run/C12.v). *)
 Definition mk_sess (t : stable) : sstate :=
@@ -107,8 +118,10 @@ Definition stab_ok (m : gmap bytes sess) (o : stable) : bool :=
     | None => false
     end) o.
 
-Definition probe : handler bool unit :=
-  fun _ w _ => ({| w_app := true; w_sess := w_sess w |}, AHandler tt).
+(** The probe handler: remembers that it ran and whether the control lock was
+    held ([None]: did not run). *)
+Definition probe : bool -> handler (option bool) unit :=
+  fun b _ w _ => ({| w_app := Some b; w_sess := w_sess w |}, AHandler tt).
 
 Definition chain_of_sel (k : chain_sel) : list wrapper :=
   match k with KRegister m => http_register_chain m | KChain ws => ws end.
@@ -119,21 +132,42 @@ Definition loc_class (l : bytes) : Z :=
   else if eqb_bytes l [] then 3
   else if eqb_bytes l str_https then 4 else 5.
 
-Definition run_probe (e : env) (sess : stable) (k : chain_sel) (r : request) : bool * Z * Z * gmap bytes Session.sess :=
-  let w := {| w_app := false; w_sess := mk_sess sess |} in
-  let '(w', a) := apply_chain (chain_of_sel k) probe e w r in
+(** (ran, locked, status, class of Location, session state afterwards) *)
+Definition run_probe_st (e : env) (s : sstate) (k : chain_sel) (r : request) : bool * bool * Z * Z * sstate :=
+  let w := {| w_app := None; w_sess := s |} in
+  let '(w', a) := apply_chain_l (chain_of_sel k) probe false e w r in
   let '(st, loc) := match a with
                     | AHandler _ => (200, 0)
                     | AStatus c => (c, 0)
                     | ARedirect c l => (c, loc_class l)
                     end in
-  (w_app w', st, loc, ss_mem (w_sess w')).
+  (match w_app w' with Some _ => true | None => false end,
+   match w_app w' with Some b => b | None => false end, st, loc, w_sess w').
+
+Definition run_probe (e : env) (sess : stable) (k : chain_sel) (r : request) : bool * bool * Z * Z * gmap bytes Session.sess :=
+  let '(ran, lk, st, loc, s') := run_probe_st e (mk_sess sess) k r in (ran, lk, st, loc, ss_mem s').
+
+Definition obs_ok (o : obs) (x : bool * bool * Z * Z * gmap bytes Session.sess) : bool :=
+  let '(ran, lk, st, loc, m) := x in
+  Bool.eqb ran (o_ran o) && Bool.eqb lk (o_locked o) && (st =? o_status o) && (loc =? o_loc o) && stab_ok m (o_sess o).
+
+(** sessions.db before the start: the bucket only. *)
+Definition mk_stored (t : stable) : sstate :=
+  {| ss_mem := ∅;
+     ss_disk := list_to_map (map (fun '(k, (u, e)) => (k, {| s_user := u; s_expire := e |})) t) |}.
+
+Fixpoint reload_reqs (s : sstate) (reqs : list (env * chain_sel * request * obs)) : bool :=
+  match reqs with
+  | [] => true
+  | (e, k, r, o) :: reqs' =>
+      let '(ran, lk, st, loc, s') := run_probe_st e s k r in
+      obs_ok o (ran, lk, st, loc, ss_mem s') && reload_reqs s' reqs'
+  end.
 
 Definition case_ok (c : case) : bool :=
   match c with
   | CProbe e sess k r o =>
-      let '(ran, st, loc, m) := run_probe e sess k r in
-      Bool.eqb ran (o_ran o) && (st =? o_status o) && (loc =? o_loc o) && stab_ok m (o_sess o)
+      obs_ok o (run_probe e sess k r)
   | CMux public ran => public || negb ran
   | CPublic p o =>
       Bool.eqb (is_public p) o &&
@@ -144,8 +178,7 @@ Definition case_ok (c : case) : bool :=
       match boot Gen.Routes.startup b, pr with
       | BootFatal, None => true
       | BootServe p u, Some (e, sess, k, r, o) =>
-          let '(ran, st, loc, m) := run_probe (with_boot p u e) sess k r in
-          Bool.eqb ran (o_ran o) && (st =? o_status o) && (loc =? o_loc o) && stab_ok m (o_sess o)
+          obs_ok o (run_probe (with_boot p u e) sess k r)
       | _, _ => false
       end
   | CAccounts us => bool_decide (us = std_accounts)
@@ -164,8 +197,11 @@ Definition case_ok (c : case) : bool :=
                   e_https := false; e_force_https := false; e_now := 0; e_ttl := 0 |} in
       let r := {| r_method := str_GET; r_path := [47;112]%N; r_ctype := []; r_clen := 0; r_cookie := CNone;
                   r_basic := BCred l p; r_tls := false; r_host_ok := true; r_hdrs := [] |} in
-      let '(ran', _, _, _) := run_probe e [] (KChain [WPostInstall; WOptionalAuth]) r in
+      let '(ran', _, _, _, _) := run_probe e [] (KChain [WPostInstall; WOptionalAuth]) r in
       Bool.eqb ran' ran
+  | CReload recs now0 loaded reqs =>
+      let s1 := restart now0 (mk_stored recs) in
+      stab_ok (ss_mem s1) loaded && reload_reqs s1 reqs
   end.
 
 Definition mismatches := Base.Run.mismatches case_ok.
@@ -173,14 +209,14 @@ Definition mismatches := Base.Run.mismatches case_ok.
 Definition explain (c : case) : bool * Z * Z * stable :=
   match c with
   | CProbe e sess k r _ =>
-      let '(ran, st, loc, m) := run_probe e sess k r in
+      let '(ran, _, st, loc, m) := run_probe e sess k r in
       (ran, st, loc, map (fun '(k, s) => (k, (s_user s, s_expire s))) (map_to_list m))
   | CMux _ _ => (false, 0, 0, [])
   | CPublic p _ => (is_public p, match glob_public p with Some true => 1 | Some false => 0 | None => -1 end, 0, [])
   | CBoot b _ _ pr =>
       match boot Gen.Routes.startup b, pr with
       | BootServe p u, Some (e, sess, k, r, _) =>
-          let '(ran, st, loc, m) := run_probe (with_boot p u e) sess k r in
+          let '(ran, _, st, loc, m) := run_probe (with_boot p u e) sess k r in
           (ran, st, loc, map (fun '(k, s) => (k, (s_user s, s_expire s))) (map_to_list m))
       | BootServe p u, None => (p, -2, 0, [])
       | BootFatal, _ => (false, -1, 0, [])
@@ -191,4 +227,11 @@ Definition explain (c : case) : bool * Z * Z * stable :=
       | Some (n, h) => (true, 200, 0, [(n, (h, 0%N))])
       | None => (false, 403, 0, [])
       end
+  | CReload recs now0 _ reqs =>
+      (* the table the model loads, and whether the LAST request runs *)
+      let s1 := restart now0 (mk_stored recs) in
+      let fin := fold_left (fun '(s, _) '(e, k, r, _) =>
+                              let '(ran, _, st, _, s') := run_probe_st e s k r in (s', (ran, st)))
+                           reqs (s1, (false, 0)) in
+      (fst (snd fin), snd (snd fin), 0, map (fun '(k, s) => (k, (s_user s, s_expire s))) (map_to_list (ss_mem s1)))
   end.
